@@ -32,7 +32,8 @@ def build_b0(spec):
 
 def strategy(tier, unit):
     return st.fixed_dictionaries({"rot": S.rot_specs(1), "cell": S.cells(), "hkl": S.hkls(20),
-                                  "mod": st.sampled_from(["tools", "laue"]), "b0": _b0()})
+                                  "mod": st.sampled_from(["tools", "laue"]), "b0": _b0(),
+                                  "prev": st.one_of(st.none(), st.fixed_dictionaries({"rot": S.rot_specs(1), "cell": st.one_of(S.cells(), S.logfl(1e-9, 1e-3)), "as_array": st.booleans()}))})
 
 
 def check(case, ctx):
@@ -41,7 +42,7 @@ def check(case, ctx):
     mod = tools if m == "tools" else laue
     f = O.TWO_PI if m == "tools" else 1.0
     cell = [x + 0.0 for x in case["cell"]]
-    U0 = S.build_rotation(case["rot"]) + 0.0
+    U0 = O.ro(S.build_rotation(case["rot"]) + 0.0)
     h = np.array(case["hkl"], float)
     G, Gs, V = O.metric(cell)
     axis = S.rot_is_axis(U0)
@@ -57,8 +58,26 @@ def check(case, ctx):
         if min(abs(e[1]), abs(e[1] - math.pi)) < 1e-3:
             ctx.event("near-singular-euler")
 
-    B = np.asarray(mod.form_b_mat(cell), float)
-    ubi = np.asarray(mod.u_to_ubi(U0, cell), float)
+    # history: the same cell object was used for another grain / another cell just before (and its results are
+    # still held by the caller); the conversions of THIS grain must depend on the current arguments only
+    cell_arg = cell
+    if case.get("prev") is not None:
+        pv = case["prev"]
+        pcell = pv["cell"] if isinstance(pv["cell"], list) else S.perturbed(cell, pv["cell"])
+        holder = np.array(pcell, float) if pv["as_array"] else [float(x) for x in pcell]
+        Up = O.ro(S.build_rotation(pv["rot"]) + 0.0)
+        ubip = O.ro(ctx.keep("%s.u_to_ubi" % m, mod.u_to_ubi(Up, holder)))
+        ctx.keep("%s.ubi_to_u" % m, mod.ubi_to_u(ubip))
+        ctx.keep("%s.ubi_to_cell" % m, mod.ubi_to_cell(ubip))
+        ctx.keep("%s.ubi_to_u_b" % m, mod.ubi_to_u_b(ubip))
+        ctx.keep("%s.ub_to_u_b" % m, mod.ub_to_u_b(O.ro(Up @ build_b0(case["b0"]))))
+        if O.rot_angle_deg(Up) < 179.0:
+            ctx.keep("%s.ubi_to_rod" % m, mod.ubi_to_rod(ubip))
+        holder[:] = cell
+        cell_arg = holder
+        ctx.event("previous-grain-with-same-cell-object")
+    B = np.asarray(mod.form_b_mat(cell_arg), float)
+    ubi = O.ro(mod.u_to_ubi(U0, cell_arg))
     # UBI.(U.B.hkl) = f*hkl
     g = U0 @ B @ h
     ctx.near("UBI.g=f.h", O.maxabs(ubi @ g - f * h) / (f * np.linalg.norm(h)), TOL, "ubi-times-g",
@@ -85,7 +104,7 @@ def check(case, ctx):
         ctx.near("ubi_to_rod->rod_to_u", O.maxabs(U3 - U0), 1e-7, "ubi_to_rod", "%s: rod_to_u(ubi_to_rod(ubi)) != U" % m)
     # QR split of an arbitrary det>0 matrix
     if cond < 1e6:
-        UB = U0 @ B0
+        UB = O.ro(U0 @ B0)
         Uq, Bq = mod.ub_to_u_b(UB)
         Uq, Bq = np.asarray(Uq, float), np.asarray(Bq, float)
         sc = O.maxabs(B0)
